@@ -48,6 +48,11 @@ func genSet(t *rapid.T) (*sem.Case, *setInfo, map[string]bool) {
 	names := nameSchemes[rapid.SampledFrom([]int{0, 0, 1, 2, 3, 4}).Draw(t, "namescheme")]
 	c := &sem.Case{Scripts: map[string][]*gen.Node{}, Root: "main.p", Meas: "m"}
 	feat := map[string]bool{}
+	// half of the sets are loaded the way an embedder with per-script function tables loads them
+	c.OwnTables = rapid.Bool().Draw(t, "owntables")
+	if c.OwnTables {
+		feat["own-function-tables"] = true
+	}
 	assigned := map[string]map[string]bool{}
 	calls := map[string][]string{}
 	for i := n - 1; i >= 0; i-- {
@@ -149,7 +154,7 @@ func dump(c *sem.Case) string {
 }
 
 func cloneCase(c *sem.Case) *sem.Case {
-	d := &sem.Case{Scripts: map[string][]*gen.Node{}, Root: c.Root, Meas: c.Meas, Tags: c.Tags, Fields: c.Fields}
+	d := &sem.Case{Scripts: map[string][]*gen.Node{}, Root: c.Root, Meas: c.Meas, Tags: c.Tags, Fields: c.Fields, OwnTables: c.OwnTables}
 	for k, p := range c.Scripts {
 		cp := make([]*gen.Node, len(p))
 		for i := range p {
